@@ -47,14 +47,15 @@ Proof.
   exists [], 1%N, CSingular, None, false, [], [Known 1 CSingular None false []], CSingular, None, false, []. cbn. auto.
 Qed.
 
-(* accepted => the nesting (messages, and brackets of skipped values) fits into RecursionLimit *)
+(* accepted => the nesting (messages, and brackets of skipped values) is at most RecursionLimit *)
 Theorem C26_json_depth_bounded : forall discard rem fs,
-  jmsg discard rem fs = Accept -> jdepth_le rem fs.
-Proof. exact j_depth_bounded. Qed.
+  jmsg discard rem fs = Accept -> depth_j fs <= rem.
+Proof. exact j_depth_bounded_num. Qed.
 Print Assumptions C26_json_depth_bounded.
 Example C26_json_depth_bounded_ex :
   jmsg true 3 [Known 2 CSingular None false [[Unknown false 1]]] = Accept /\
-  jmsg true 3 [Known 2 CSingular None false [[Unknown false 2]]] = Reject RDepth.
+  jmsg true 3 [Known 2 CSingular None false [[Unknown false 2]]] = Reject RDepth /\
+  depth_j [Known 2 CSingular None false [[Unknown false 1]]] = 3 /\ depth_j [Known 2 CSingular None false [[Unknown false 2]]] = 4.
 Proof. vm_compute. auto. Qed.
 
 Theorem C26_json_no_panic : forall discard rem fs, jmsg discard rem fs <> Panic.
@@ -89,14 +90,15 @@ Proof. eapply VT_child; [left; reflexivity|left; reflexivity|]. apply VT_bynum. 
 (* accepted => nesting (messages, map entries, skipped messages) fits into RecursionLimit;
    the skip path is included (F5 repaired: skipMessageValue decrements) *)
 Theorem C26_text_depth_bounded : forall discard rem fs,
-  tmsg discard rem fs = Accept -> tdepth_le rem fs.
-Proof. exact t_depth_bounded. Qed.
+  tmsg discard rem fs = Accept -> depth_t fs <= rem.
+Proof. exact t_depth_bounded_num. Qed.
 Print Assumptions C26_text_depth_bounded.
 Example C26_text_depth_bounded_ex :
   tmsg false 3 [Known 4 CMap None false [[Unknown true 0]]] = Accept /\
   tmsg false 3 [Known 4 CMap None false [[Unknown true 1]]] = Reject RDepth /\
-  tmsg false 1 [Known 4 CMap None false []] = Reject RDepth.
-Proof. vm_compute. auto. Qed.
+  tmsg false 1 [Known 4 CMap None false []] = Reject RDepth /\
+  depth_t [Known 4 CMap None false [[Unknown true 0]]] = 3 /\ depth_t [Known 4 CMap None false []] = 2.
+Proof. vm_compute. repeat split. Qed.
 
 Theorem C26_text_no_panic : forall discard rem fs, tmsg discard rem fs <> Panic.
 Proof. exact t_no_panic. Qed.
